@@ -150,6 +150,7 @@ package verifier
 //@   prop C01
 //@   safety
 //@   assume-benign
+//@   call delete #* requires [only-the-top-level-context-and-the-proof-are-left-out] arg(0) == members && (arg(1) == "@context" || arg(1) == "proof")
 //@   ensures [every-member-but-context-and-proof-is-searched] isNilIface(ret(call json.Unmarshal #1)) ==> arg(call json.Unmarshal #1, 0) == document
 //@        && result == ret(call containsContext #1) && arg(call containsContext #1, 0) == any(members)
 
